@@ -180,9 +180,11 @@ def Sim.addStratum (s : Sim) (c : Bool) (n : String) : Sim :=
 def simulate (rx : Nat → Val → Bool) (keysAsIs burn : Bool) (ff : Bool) (failing : List Nat)
     (rules : List Rule) (caseScope : Scope) (evs : List EvX) (ops : List SOp) : Sim :=
   let rules := if keysAsIs then rules.map asIsRule else rules
-  let failNames := failing.filterMap fun i => rules[i]?.map (·.name)
-  let fails : Rule → Bool := fun r => failNames.contains r.name
   ops.foldl (fun (s : Sim) op =>
+    -- the failing action belongs to the rule object handed to AddRule: it only exists if that rule was accepted
+    let failNames := failing.filterMap fun i =>
+      if alookup i s.errs == some false then rules[i]?.map (·.name) else none
+    let fails : Rule → Bool := fun r => failNames.contains r.name
     match op with
     | .reset => { s with p := s.p.reset, seenKinds := [] }
     | .rule i =>
